@@ -18,7 +18,7 @@ for rf in sorted((root / "results").glob("*.json")):
     r = json.loads(rf.read_text())
     name = rf.stem  # C05-change2
     pid, ch = name.split("-", 1)
-    sid = f"{pid}-{ch[-1]}" if ch.startswith("change") else f"{pid}-r2-{ch[-1]}"
+    sid = f"{pid}-{ch[-1]}" if ch.startswith("change") else f"{pid}-{ch[:2]}-{ch[-1]}"
     src = root / pid / "_seed" / ch
     if not src.exists():
         continue
@@ -44,7 +44,7 @@ for rf in sorted((root / "results").glob("*.json")):
             files.append(line[6:])
     meta = {
         "id": sid,
-        "round": 1 if ch.startswith("change") else 2,
+        "round": 1 if ch.startswith("change") else int(ch[1]),
         "breaks_property": pid,
         "files_changed": files,
         "needs_to_manifest": needs or "see notes.md",
@@ -56,6 +56,7 @@ for rf in sorted((root / "results").glob("*.json")):
             "demo_with_change_exit": r["demo_patched"]["exit"],
             "demo_with_change_tail": r["demo_patched"]["tail"][-300:],
         },
+        "checks_run_in_the_final_evaluation": r.get("checks_run", sorted(r.get("checks", {}))),
         "checks_that_fire": r.get("fired", []),
         "checks_that_cannot_analyse_the_change": r.get("errors", []),
         "first_report": {p: c["lines"][:1] for p, c in r.get("checks", {}).items() if c["exit"] == 1},
@@ -66,7 +67,7 @@ for rf in sorted((root / "results").glob("*.json")):
 print("| seed | target | files | caught by | cannot analyse |")
 print("|------|--------|-------|-----------|----------------|")
 for pid, ch, st, needs, fired, errs in rows:
-    sid = f"{pid}-{ch[-1]}" if ch.startswith("change") else f"{pid}-r2-{ch[-1]}"
+    sid = f"{pid}-{ch[-1]}" if ch.startswith("change") else f"{pid}-{ch[:2]}-{ch[-1]}"
     d = dest / sid
     files = ""
     if (d / "meta.json").exists():
